@@ -215,10 +215,10 @@ def norm(s):
 
 
 def gen_c14(seed):
-    """One harness per table entry. Valve: behaviour 1 (info reply with symbolic app id, then
-    silence); the quick-tier games additionally get behaviour 0 (silent) and, in the thorough
-    tier, behaviour 2 (info + empty players + empty rules). Others: silent server; the
-    quick-tier games additionally get a junk datagram in the thorough tier."""
+    """Argument harnesses (c14_args_*) for every table entry - quick tier. Network harnesses
+    (c14_net_*): proprietary protocols and Minecraft variants on a silent server (quick: they
+    decide the default port inside the entry point); Valve / Unreal 2 composition runs for the
+    seeded quick selection in the thorough tier."""
     games = parse_table()
     mods = parse_modules()
     quick = pick_quick(games, seed)
@@ -229,44 +229,53 @@ def gen_c14(seed):
     unmatched = []
     skipped = []
     n = 0
-    PROPCALL = {"ffow": "gamedig::games::ffow::query", "savage2": "gamedig::games::savage2::query",
-                "jc2m": "gamedig::games::jc2m::query", "theship": "gamedig::games::theship::query",
-                "mindustry": "mindustry_mod", "mc_bedrock": "minecraft::query_bedrock",
-                "mc_legacy16": "mc_legacy16_mod", "mc_legacy14": "mc_legacy14_mod", "mc_legacyb18": "mc_legacyb18_mod"}
+    FUN = {"gs1": "Fun::Gs1", "gs2": "Fun::Gs2", "gs3": "Fun::Gs3", "quake1": "Fun::Quake1", "quake2": "Fun::Quake2",
+           "quake3": "Fun::Quake3", "unreal2": "Fun::Unreal2", "mc_bedrock": "Fun::McBedrock", "mc_java": "Fun::McJava",
+           "mc_legacy16": "Fun::McLegacy16", "mc_legacy14": "Fun::McLegacy14", "mc_legacyb18": "Fun::McLegacyB18",
+           "mc_auto": "Fun::McAuto", "ffow": "Fun::Ffow", "savage2": "Fun::Savage2", "jc2m": "Fun::Jc2m",
+           "theship": "Fun::TheShip", "mindustry": "Fun::Mindustry"}
+    MCMOD = {"mc_bedrock": "minecraft::query_bedrock", "mc_java": "mc_java_mod", "mc_legacy16": "mc_legacy16_mod",
+             "mc_legacy14": "mc_legacy14_mod", "mc_legacyb18": "mc_legacyb18_mod", "mc_auto": "minecraft::query"}
+    IPMOD = {"ffow": "gamedig::games::ffow::query", "savage2": "gamedig::games::savage2::query",
+             "jc2m": "gamedig::games::jc2m::query", "theship": "gamedig::games::theship::query",
+             "mindustry": "mindustry_mod"}
+    NETFIRST = dict(FIRST)
     for g in games:
         fam = family_of(g["protocol"])
         gid = g["id"]
         m = by_mod.get(gid) or by_name.get(norm(g["name"]))
         q = gid in quick
-        tier = "" if q else "t_"
         if fam == "valve":
             if m is None or m["family"] != "valve":
                 unmatched.append(gid)
-                lines.append('c14_valve_nomod!(c14_%svalve_%s_info, "%s", 1);' % (tier, gid, gid))
-                if q:
-                    lines.append('c14_valve_nomod!(c14_t_valve_%s_full, "%s", 2);' % (gid, gid))
+                lines.append('c14_args_valve_nomod!(c14_args_valve_%s, "%s");' % (gid, gid))
             else:
-                lines.append('c14_valve!(c14_%svalve_%s_info, "%s", %s, 1);' % (tier, gid, gid, m["module"]))
+                lines.append('c14_args_valve!(c14_args_valve_%s, "%s", %s);' % (gid, gid, m["module"]))
                 if q:
-                    lines.append('c14_valve!(c14_valve_%s_silent, "%s", %s, 0);' % (gid, gid, m["module"]))
-                    lines.append('c14_valve!(c14_t_valve_%s_full, "%s", %s, 2);' % (gid, gid, m["module"]))
+                    lines.append('c14_net_valve!(c14_t_net_valve_%s_silent, "%s", %s, 0);' % (gid, gid, m["module"]))
+                    lines.append('c14_net_valve!(c14_t_net_valve_%s_info, "%s", %s, 1);' % (gid, gid, m["module"]))
             n += 1
         elif fam in ("gs1", "gs2", "gs3", "quake1", "quake2", "quake3", "unreal2"):
-            protofn = {"gs1": "gs1", "gs2": "gs2", "gs3": "gs3", "quake1": "quake1", "quake2": "quake2",
-                       "quake3": "quake3", "unreal2": "unreal2_q"}[fam]
             if m is None:
                 unmatched.append(gid)
-                continue
-            lines.append('c14_simple!(c14_%s%s_%s_silent, "%s", %s, %s, %s, 0);' % (
-                tier, fam, gid, gid, m["module"], protofn, FIRST[fam]))
-            if q:
-                lines.append('c14_simple!(c14_t_%s_%s_junk, "%s", %s, %s, %s, 1);' % (
-                    fam, gid, gid, m["module"], protofn, FIRST[fam]))
+                lines.append('c14_args_harness!(c14_args_%s_%s, { args_addr::<()>("%s", %s, None) });' % (fam, gid, gid, FUN[fam]))
+            else:
+                lines.append('c14_args_addr!(c14_args_%s_%s, "%s", %s, gamedig::games::%s::query);' % (
+                    fam, gid, gid, FUN[fam], m["module"]))
+                if fam == "unreal2" and q:
+                    lines.append('c14_net_unreal2!(c14_t_net_unreal2_%s_info, "%s", %s);' % (gid, gid, m["module"]))
             n += 1
-        elif fam in PROPCALL:
-            lines.append('c14_prop!(c14_%sprop_%s_silent, "%s", %s, %s, 0);' % (tier, gid, gid, PROPCALL[fam], FIRST[fam]))
-            if q:
-                lines.append('c14_prop!(c14_t_prop_%s_junk, "%s", %s, %s, 1);' % (gid, gid, PROPCALL[fam], FIRST[fam]))
+        elif fam in MCMOD:
+            lines.append('c14_args_addr!(c14_args_%s, "%s", %s, %s);' % (gid, gid, FUN[fam], MCMOD[fam]))
+            if fam in NETFIRST:
+                lines.append('c14_net_prop!(c14_net_prop_%s, "%s", %s, %s);' % (gid, gid, MCMOD[fam], NETFIRST[fam]))
+            n += 1
+        elif fam in IPMOD:
+            lines.append('c14_args_ip!(c14_args_%s, "%s", %s, %s);' % (gid, gid, FUN[fam], IPMOD[fam]))
+            lines.append('c14_net_prop!(c14_net_prop_%s, "%s", %s, %s);' % (gid, gid, IPMOD[fam], NETFIRST[fam]))
+            n += 1
+        elif fam == "eco":
+            lines.append('c14_args_eco!(c14_args_eco, "%s");' % gid)
             n += 1
         else:
             skipped.append((gid, fam))
@@ -275,8 +284,8 @@ def gen_c14(seed):
     orphans = [m["module"] for m in mods if norm(m["name"]) not in table_names and m["module"] not in table_ids]
     os.makedirs(OUT, exist_ok=True)
     open(os.path.join(OUT, "c14_games.rs"), "w").write("\n".join(lines) + "\n")
-    return "c14: %d games (%d quick); table entries without module: %s; modules without table entry: %s; not encodable: %s" % (
-        n, len(quick), unmatched, orphans, skipped)
+    return "c14: %d games; table entries without module: %s; modules without table entry: %s; not encodable: %s" % (
+        n, unmatched, orphans, skipped)
 
 
 def main():
